@@ -434,6 +434,181 @@ func apiCheckAccessor(t *testing.T) {
 	}
 }
 
+// C09 / C10: filter logic over the members of one container
+func apiSelect(t *testing.T, filter string, doc interface{}, container string) (ids map[int]bool, ok bool) {
+	defer func() {
+		if r := recover(); r != nil {
+			t.Errorf("REPRODUCED: filter %q panicked: %v", filter, r)
+			ok = false
+		}
+	}()
+	res, err := Retrieve("$."+container+"[?("+filter+")]", doc)
+	ids = map[int]bool{}
+	if err != nil {
+		switch err.(type) {
+		case ErrorMemberNotExist:
+			return ids, true
+		case ErrorInvalidSyntax, ErrorInvalidArgument, ErrorNotSupported, ErrorFunctionNotFound:
+			return nil, false
+		}
+		t.Errorf("REPRODUCED: filter %q failed with %T: %v", filter, err, err)
+		return nil, false
+	}
+	for _, r := range res {
+		m, isMap := r.(map[string]interface{})
+		if !isMap {
+			continue
+		}
+		switch id := m["id"].(type) {
+		case float64:
+			ids[int(id)] = true
+		case json.Number:
+			f, _ := id.Float64()
+			ids[int(f)] = true
+		}
+	}
+	return ids, true
+}
+
+func apiSetEq(a, b map[int]bool) bool {
+	if len(a) != len(b) {
+		return false
+	}
+	for k := range a {
+		if !b[k] {
+			return false
+		}
+	}
+	return true
+}
+
+func apiCheckFilters(t *testing.T) {
+	src := `{"k":1,"s":"x","n":null,"t":true,"big":1e400,
+	 "m":[{"id":0,"a":1},{"id":1,"a":2},{"id":2,"a":"x"},{"id":3,"a":true},{"id":4,"a":null},{"id":5},{"id":6,"a":1.5,"b":1},{"id":7,"a":[1]},{"id":8,"a":{"c":1}},{"id":9,"a":0,"b":2},{"id":10,"a":1e400}],
+	 "o":{"p":{"id":0,"a":1},"q":{"id":1,"a":2},"r":{"id":2,"a":"x"},"s":{"id":5},"u":{"id":6,"a":1.5,"b":1}},
+	 "e":[], "one":[{"id":0,"a":1}], "none":[{"id":0},{"id":1}]}`
+	var docs []interface{}
+	dec := json.NewDecoder(strings.NewReader(src))
+	dec.UseNumber()
+	var dn interface{}
+	_ = dec.Decode(&dn)
+	plainSrc := strings.Replace(strings.Replace(src, `"big":1e400,`, ``, 1), `,{"id":10,"a":1e400}`, ``, 1)
+	docs = append(docs, apiDecode(plainSrc), dn)
+	atoms := []string{`@.a`, `@.b`, `!@.a`, `@.a == 1`, `@.a != 1`, `1 == @.a`, `1 != @.a`, `@.a > 1`, `1 < @.a`, `@.a >= 1`, `1 <= @.a`, `@.a < 2`, `2 > @.a`, `@.a <= 1`, `1 >= @.a`,
+		`@.a == 'x'`, `'x' == @.a`, `@.a != 'x'`, `@.a =~ /x/`, `@.a == true`, `@.a == null`, `@.a == $.k`, `$.k == @.a`, `@.a != $.k`, `@.a == $.zz`, `@.a != $.zz`, `@.zz == $.zz`, `@.zz != $.zz`,
+		`$.k == 1`, `1 == $.k`, `$.k != 1`, `$.k > 0`, `0 < $.k`, `$.k >= 1`, `$.k < 1`, `1 < 2`, `2 < 1`, `1 == 1`, `1 == 2`, `'a' == 1`, `$.zz`, `$.k`, `@.a > $.k`, `$.k < @.a`, `@.a >= $.k`, `@.b == $.k`, `@.a == $.s`, `@.a == $.n`, `@.a == $.t`}
+	mirror := map[string]string{`@.a == 1`: `1 == @.a`, `@.a != 1`: `1 != @.a`, `@.a > 1`: `1 < @.a`, `@.a >= 1`: `1 <= @.a`, `@.a < 2`: `2 > @.a`, `@.a <= 1`: `1 >= @.a`, `@.a == 'x'`: `'x' == @.a`,
+		`@.a == $.k`: `$.k == @.a`, `$.k == 1`: `1 == $.k`, `$.k > 0`: `0 < $.k`, `@.a > $.k`: `$.k < @.a`}
+	negation := map[string]string{`@.a == 1`: `@.a != 1`, `1 == @.a`: `1 != @.a`, `@.a == 'x'`: `@.a != 'x'`, `@.a == $.k`: `@.a != $.k`, `@.a == $.zz`: `@.a != $.zz`, `@.zz == $.zz`: `@.zz != $.zz`, `$.k == 1`: `$.k != 1`, `@.a`: `!@.a`}
+	for di, doc := range docs {
+		for _, cont := range []string{"m", "o", "e", "one", "none"} {
+			all, ok := apiSelect(t, `@.id || !@.id`, doc, cont)
+			if !ok {
+				continue
+			}
+			sel := map[string]map[int]bool{}
+			for _, a := range atoms {
+				if s, ok := apiSelect(t, a, doc, cont); ok {
+					sel[a] = s
+				}
+				if t.Failed() {
+					return
+				}
+			}
+			for a, b := range mirror {
+				if sel[a] != nil && sel[b] != nil && !apiSetEq(sel[a], sel[b]) {
+					t.Errorf("REPRODUCED: doc %d container %s: %q selects %v but its mirror %q selects %v", di, cont, a, sel[a], b, sel[b])
+					return
+				}
+			}
+			for a, b := range negation {
+				if sel[a] == nil || sel[b] == nil {
+					continue
+				}
+				comp := map[int]bool{}
+				for id := range all {
+					if !sel[a][id] {
+						comp[id] = true
+					}
+				}
+				if !apiSetEq(comp, sel[b]) {
+					t.Errorf("REPRODUCED: doc %d container %s: %q selects %v, %q selects %v, not the complement within %v", di, cont, a, sel[a], b, sel[b], all)
+					return
+				}
+			}
+			// <= is < or == ; >= is > or ==  (number literals, including 0 and values present in the members)
+			for _, lit := range []string{"0", "1", "1.5", "2", "-1"} {
+				for _, ops := range [][3]string{{"<=", "<", "=="}, {">=", ">", "=="}} {
+					whole, ok0 := apiSelect(t, "@.a "+ops[0]+" "+lit, doc, cont)
+					strict, ok1 := apiSelect(t, "@.a "+ops[1]+" "+lit, doc, cont)
+					equal, ok2 := apiSelect(t, "@.a "+ops[2]+" "+lit, doc, cont)
+					if !ok0 || !ok1 || !ok2 {
+						continue
+					}
+					u := map[int]bool{}
+					for id := range strict {
+						u[id] = true
+					}
+					for id := range equal {
+						u[id] = true
+					}
+					if !apiSetEq(u, whole) {
+						t.Errorf("REPRODUCED: doc %d container %s: `@.a %s %s` selects %v, `%s` union `==` selects %v", di, cont, ops[0], lit, whole, ops[1], u)
+						return
+					}
+				}
+			}
+			for i, a := range atoms {
+				for j, b := range atoms {
+					if (i+j)%3 != 0 && i != j { // a third of the pairs: keeps the run short
+						continue
+					}
+					if sel[a] == nil || sel[b] == nil {
+						continue
+					}
+					and, ok1 := apiSelect(t, "("+a+") && ("+b+")", doc, cont)
+					or, ok2 := apiSelect(t, "("+a+") || ("+b+")", doc, cont)
+					if !ok1 || !ok2 {
+						continue
+					}
+					wantAnd, wantOr := map[int]bool{}, map[int]bool{}
+					for id := range sel[a] {
+						wantOr[id] = true
+						if sel[b][id] {
+							wantAnd[id] = true
+						}
+					}
+					for id := range sel[b] {
+						wantOr[id] = true
+					}
+					if !apiSetEq(and, wantAnd) {
+						t.Errorf("REPRODUCED: doc %d container %s: (%s) && (%s) selects %v, the intersection is %v", di, cont, a, b, and, wantAnd)
+						return
+					}
+					if !apiSetEq(or, wantOr) {
+						t.Errorf("REPRODUCED: doc %d container %s: (%s) || (%s) selects %v, the union is %v", di, cont, a, b, or, wantOr)
+						return
+					}
+				}
+			}
+		}
+	}
+	// C10: number decoding does not change the selection
+	for _, a := range atoms {
+		for _, cont := range []string{"m", "o"} {
+			s0, ok0 := apiSelect(t, a, docs[0], cont)
+			s1, ok1 := apiSelect(t, a, docs[1], cont)
+			if ok0 && ok1 {
+				delete(s1, 10) // the member whose number overflows float64 exists only in the UseNumber document
+				if !apiSetEq(s0, s1) && !strings.Contains(a, "$.") {
+					t.Errorf("REPRODUCED: %q on %s selects %v with float64 decoding and %v with UseNumber", a, cont, s0, s1)
+					return
+				}
+			}
+		}
+	}
+}
+
 type apiStruct struct{ X int }
 
 // C20: documents with non-JSON leaves
@@ -475,6 +650,8 @@ func TestVerifReplay(t *testing.T) {
 		if !t.Failed() {
 			apiCheckPure(t)
 		}
+	case "C09", "C10":
+		apiCheckFilters(t)
 	case "C12", "C13":
 		apiCheckAccessor(t)
 	case "C20":
